@@ -255,3 +255,42 @@ Fixpoint mismatches_from {A} (k : N) (eqb : A -> A -> bool) (l : list (A * A)) :
   | (got, want) :: r =>
       if eqb got want then mismatches_from (N.succ k) eqb r else (k, got) :: mismatches_from (N.succ k) eqb r
   end.
+
+(* ---------------------------------------------------------------- more list facts *)
+
+Lemma getq_map (f : Q -> Q) xs i : getq (map (option_map f) xs) i = option_map f (getq xs i).
+Proof.
+  unfold getq. revert i. induction xs as [|x xs IH]; intros [|i]; simpl; auto.
+Qed.
+
+Lemma rev_tab {A} n (f : nat -> A) : rev (tab n f) = tab n (fun i => f (n - 1 - i)%nat).
+Proof.
+  revert f. induction n as [|n IH]; intros f; [reflexivity|].
+  rewrite tab_S. simpl rev. rewrite IH.
+  assert (E : tab (S n) (fun i => f (S n - 1 - i)%nat) =
+              tab n (fun i => f (S n - 1 - i)%nat) ++ [f 0%nat]).
+  { unfold tab. rewrite seq_S, map_app. simpl. repeat f_equal. lia. }
+  rewrite E. f_equal. apply tab_ext. intros i Hi. f_equal. lia.
+Qed.
+
+Lemma getq_rev xs i : (i < length xs)%nat -> getq (rev xs) i = getq xs (length xs - 1 - i).
+Proof. intros H. unfold getq. rewrite rev_nth by exact H. f_equal. lia. Qed.
+
+(* thresholds: None = absent (loosest).  thr_le a b: a is at least as strict as b *)
+Definition thr_le (a b : option Q) : Prop :=
+  match a, b with
+  | Some x, Some y => x <= y
+  | _, None => True
+  | None, Some _ => False
+  end.
+
+Global Instance qmin_Proper : Proper (Qeq ==> Qeq ==> Qeq) qmin.
+Proof.
+  intros a b H c d H1.
+  destruct (qmin_case a c) as [[? ->]|[? ->]], (qmin_case b d) as [[? ->]|[? ->]]; lra.
+Qed.
+Global Instance qmax_Proper : Proper (Qeq ==> Qeq ==> Qeq) qmax.
+Proof.
+  intros a b H c d H1.
+  destruct (qmax_case a c) as [[? ->]|[? ->]], (qmax_case b d) as [[? ->]|[? ->]]; lra.
+Qed.
